@@ -5,7 +5,9 @@ import itertools
 RULE = ("exhaustive: every logger name over {a,:} up to length 7 alone and paired with a fixed partner "
         "(before and after it); appender lists over 3 names up to 4 items; then random mixes (up to 5 "
         "appenders with repeats, up to 6 loggers with repeated/malformed/unicode names, up to 3 references "
-        "per owner over declared and undeclared names, all orders random); then CONFUSABLE names: every "
+        "per owner over declared and undeclared names, all orders random); 12 (thorough 120) LARGE configurations of "
+        "21-45 loggers and 9-30 appenders with duplicated / malformed / dangling items at random positions, and a pair of "
+        "names colliding under 64-bit FNV-1a; then CONFUSABLE names: every "
         "ordered pair of appender names from a family differing only by surrounding/inner spaces, tabs, "
         "newlines, NBSP, case, '-' vs '_', accents, NFC/NFD or emptiness, each pair declared together and "
         "referenced by the root and by a logger through a third family member, the same for logger-name "
@@ -41,6 +43,27 @@ def cases(rng, tier):
     for k in range(0, 5):
         for t in itertools.product(["p", "q", "r"], repeat=k):
             out.append([list(t), 1, ["p", "q", "z"], [["l", 5, ["r", "p", "w"], 1]]])
+    # LARGE configurations: 21-45 loggers / 9-30 appenders with a few duplicated, malformed and dangling items at
+    # random positions (first occurrence wins, whatever the size) - and two names that collide under 64-bit FNV-1a
+    # (the hash the crate already uses for its appender map) declared together as appenders and as loggers
+    FNV_PAIR = ["ajhhndhanpflopkj", "hcddmdbgkfljaffc"]
+    for j in range(12 if tier == "quick" else 120):
+        n_l = rng.range(21, 45)
+        base_names = ["m%d" % i for i in range(n_l)] + ["m%d::sub" % i for i in range(0, n_l, 3)]
+        names = [rng.choice(base_names) for _ in range(n_l)]
+        for _d in range(rng.range(1, 4)):
+            names.insert(rng.below(len(names) + 1), rng.choice(names))          # duplicates
+        if rng.chance(1, 2):
+            names.insert(rng.below(len(names) + 1), rng.choice(["bad:", "", "x:::y", "t::"]))
+        n_a = rng.range(9, 30)
+        apps = ["ap%d" % rng.below(n_a) for _ in range(n_a)]
+        refpool = apps + ["nowhere", "ap%d" % (n_a + 3)]
+        ls = [[nm, rng.below(6), [rng.choice(refpool) for _ in range(rng.below(3))], rng.below(2)] for nm in names]
+        out.append([apps, rng.below(6), [rng.choice(refpool) for _ in range(rng.below(4))], ls])
+    for a, b in (FNV_PAIR, FNV_PAIR[::-1]):
+        out.append([[a, b], 3, [a, b], [["l", 4, [b, a], 1]]])
+        out.append([["x"], 3, ["x"], [[a, 4, ["x"], 1], [b, 2, ["x"], 0]]])
+        out.append([[a], 3, [b], [["l", 4, [b, a], 1]]])          # a dangling reference that collides with a declared name
     pool_names = ["a", "b", "a::b", "a::b::c", "::a", "a::", ":", "", "a:b", "a:::b", "é", "é::ü", "ab", "a::bx",
                   "a::::b", "::", "b::a", "x::y::z", "a::b::", ":a"]
     pool_apps = ["p", "q", "r", "s", "é"]
@@ -155,4 +178,9 @@ def compare(c, impl, model):
 
 def extra_checks(ctx, cases, impl_lines, model_lines):
     from gen import xcheck
-    return xcheck.concurrent_reconfig(ctx, "a built configuration installed and logged through while another thread logs", levels=False, plain=True)
+    res = xcheck.concurrent_reconfig(ctx, "a built configuration installed and logged through while another thread logs", levels=False, plain=True)
+    if res:
+        return res
+    # ... and logged through when appenders fail and the error handler itself logs (C03's re-entrant histories)
+    return xcheck.borrow(ctx, "C03", "a configuration logged through while appenders fail and the error handler logs",
+                         lambda c: len(c) == 5, n=150)
